@@ -215,6 +215,22 @@ pub fn run(ctx: &Ctx) -> (Report, Meta) {
             rep.violate(&format!("C11/first_trial_direction/{}/{}", m, cls), "the first attempt evaluates f on the wrong side of x0".into(), &case_id, c2.clone());
             return;
         }
+        // RK4: first_step is the fixed step of every interval but the (clipped or stretched) last one
+        if scn.method == Method::RK4 && so.cbs.len() >= 3 {
+            for k in 1..so.cbs.len() - 1 {
+                let hk = (so.cbs[k].x - so.cbs[k - 1].x).abs();
+                rep.count("rk4_fixed_intervals_checked", 1);
+                if (hk - fs).abs() > 8.0 * EPS * (so.cbs[k].x.abs() + fs) {
+                    rep.violate(&format!("C11/rk4_fixed_step/{}/{}", m, cls), format!("interval {} has length {:e} but the fixed step is {:e}", k, hk, fs), &case_id, c2.clone());
+                    break;
+                }
+            }
+            let last = so.cbs.len() - 1;
+            let hl = (so.cbs[last].x - so.cbs[last - 1].x).abs();
+            if hl > 1.01 * fs * (1.0 + 8.0 * EPS) + 8.0 * EPS * so.cbs[last].x.abs() {
+                rep.violate(&format!("C11/rk4_fixed_step/{}/{}_final", m, cls), format!("the final interval has length {:e}, more than 1.01 x the fixed step {:e}", hl, fs), &case_id, c2.clone());
+            }
+        }
         // if accepted, the first reported interval is first_step
         if so.cbs.len() >= 2 {
             let h1 = (so.cbs[1].x - scn.x0).abs();
